@@ -36,7 +36,7 @@ CLAIMED = {
          "Lean theorem over all schedules + source-regenerated path facts + session trace invariant + concurrent stress search", "5 C05"),
  "C20": ("proof", "Lean lockset theorem: in a disciplined access table two goroutines are never inside conflicting accesses of one location, for all interleavings of lock operations; the table (every field access with held mutexes, atomics, constructors) is regenerated from /repo on every run and decided by kernel evaluation. go -race scenario driver as failing-schedule search. Known finding: Session.LogonSettings replaced without s.mu.",
          "Lean lockset theorem + source-regenerated access table (decide) + race-detector scenario search", "5 C20"),
- "C04": ("proof", "Lean: the reader state machine delivers, for every sequence of well-formed messages and every partition of the stream into reads, exactly those messages once, complete, in order (C04_frame, C04_chunk); the serialization of every message the encoder can produce is such a well-formed image, so every sequence of encoder outputs under every chunking is reassembled into exactly those outputs (C04_encoded_stream = C17_wire composed with C04_frame; tag 10 outside CheckSum is shown to break framing, C04_tag10_in_body_splits); from any accumulated buffer the reader glues the damage to exactly one delivery and is exact afterwards (C04_resync, C04_resync_midfield); for every byte stream whatsoever deliveries ++ buffered = read and only well-formed frames are handed over (C04_conservation, C04_only_frames, C04_stream_exact); with one reader state per connection the deliveries of a connection depend on its own bytes alone, for every interleaving of arrivals on any number of connections (C04_isolation, C04_isolation_frames); FIFO hand-offs neither lose, duplicate nor reorder for any schedule and buffer sizes (C04_pipeline); the hand-off channels have one sender each (facts regenerated from source). Correspondence over scripted in-memory transports under the real Initiator and Acceptor with several connections.",
+ "C04": ("proof", "Lean: the reader state machine delivers, for every sequence of well-formed messages and every partition of the stream into reads, exactly those messages once, complete, in order (C04_frame, C04_chunk); the serialization of every message the encoder can produce is such a well-formed image, so every sequence of encoder outputs under every chunking is reassembled into exactly those outputs (C04_encoded_stream = C17_wire composed with C04_frame; tag 10 outside CheckSum is shown to break framing, C04_tag10_in_body_splits); from any accumulated buffer the reader glues the damage to exactly one delivery and is exact afterwards (C04_resync, C04_resync_midfield); for every byte stream whatsoever deliveries ++ buffered = read and only well-formed frames are handed over (C04_conservation, C04_only_frames, C04_stream_exact); with one reader state per connection the deliveries of a connection depend on its own bytes alone, for every interleaving of arrivals on any number of connections (C04_isolation, C04_isolation_frames); end to end, sender's stages under any schedule, any chunking, reader, receiver's stages under any schedule: the handler gets exactly the serializations handed over (C04_end_to_end); FIFO hand-offs neither lose, duplicate nor reorder for any schedule and buffer sizes (C04_pipeline); the hand-off channels have one sender each (facts regenerated from source). Correspondence over scripted in-memory transports under the real Initiator and Acceptor with several connections.",
          "Lean theorems over reader state machine and FIFO pipeline + regenerated channel facts + transport correspondence", "5 C04"),
  "C13": ("proof", "Lean: generic theorem that a passing reachable-state check implies every reachable state without a successor has all goroutines exited; kernel evaluation (decide +kernel) of the check on the hand-written blocking structures of the accepting side (all causes) and initiating side; the structures are tied to /repo by the inventory of blocking operations regenerated on every run (C13_generated). Known finding: on the initiating side the handler context is not cancelled when the connection ends (forwarder can stay in ServeIncoming, later sends block). Fault-injection harness as failing-schedule search.",
          "Lean reachability/closure check with soundness theorem + regenerated blocking inventory + fault-injection search", "5 C13"),
